@@ -2509,6 +2509,10 @@ public:
         packedWord = 0;
       }
     }
+    if (value.empty()) {
+      // The empty string is a single word holding the length.
+      genData(0);
+    }
     // Load the address of the string.
     switch (reg) {
     case Reg::A: genLDAC(label); break;
